@@ -25,3 +25,24 @@ package soyhtml
 //@   loop 0
 //@     invariant 0 <= last && last <= i && i <= len(str) && covered == last
 //@     invariant forall(k, last, i, !special(str[k]))
+
+// ---------------------------------------------------------------------------
+// Print directives (C16, C03).
+
+// truncate: unchanged when it fits; otherwise a prefix of the printed value,
+// cut at a rune start, never longer than the limit. Runtime panics on
+// malformed arguments (negative limit, invalid UTF-8 prefix) are converted to
+// render errors by evalPrint's recover (C06), so they are permitted exits.
+//@ func directiveTruncate
+//@   props C16
+//@   nosafety
+//@   ghost gs string = ""
+//@   at call data.Value.String#0 after set gs = res
+//@   ensures[fits] len(gs) <= int(unbox(args[0], data.Int)) ==> result == value
+//@   ensures[limit] len(gs) > int(unbox(args[0], data.Int)) ==> typeis(result, data.String) && len(unbox(result, data.String)) <= int(unbox(args[0], data.Int))
+//@   ensures[prefix] len(gs) > int(unbox(args[0], data.Int)) ==> forall(k, 0, len(unbox(result, data.String)) - 3, unbox(result, data.String)[k] == gs[k])
+//@   ensures[rune-boundary] len(gs) > int(unbox(args[0], data.Int)) ==> 0 <= maxLen && maxLen < len(gs) && (gs[maxLen] < 128 || gs[maxLen] >= 192) && forall(k, 0, maxLen, unbox(result, data.String)[k] == gs[k])
+//@   loop 0
+//@     invariant maxLen <= int(unbox(args[0], data.Int)) && len(gs) > int(unbox(args[0], data.Int)) && substr(str, gs, 0) && len(str) == len(gs)
+//@     invariant bool(ellipsis) ==> maxLen <= int(unbox(args[0], data.Int)) - 3
+//@     decreases maxLen
